@@ -34,6 +34,9 @@ type dumpResult struct {
 
 var stackBuf = make([]byte, 1<<20)
 
+// stalledClients is set while a world has a client that does not read (see Client.stall).
+var stalledClients bool
+
 // idle points: first function of the stack -> required wait-state prefix
 var idlePoints = []struct {
 	fn     string
@@ -52,6 +55,7 @@ var idlePoints = []struct {
 	{"testing.(*F).Fuzz", ""},
 	{"verif/harness/sim.(*httpCall).wait", "chan receive"},
 	{"verif/harness/sim.idleForever", ""},
+	{"verif/harness/sim.waitStall", "chan receive"},
 }
 
 func classify(block []byte) (gState, string) {
@@ -88,6 +92,10 @@ func classify(block []byte) (gState, string) {
 	if strings.HasPrefix(status, "IO wait") && bytes.Contains(rest, []byte("net/http.(*Server).Serve(")) && bytes.Contains(rest, []byte(".Accept(")) {
 		// the accept loop of a real listener (worlds with Listen)
 		return gIdle, "net/http.(*Server).Serve"
+	}
+	if stalledClients && fn == "net.(*pipe).write" && strings.HasPrefix(status, "select") {
+		// the gateway writing to a client that does not read
+		return gIdle, fn
 	}
 	if fn == "time.Sleep" && strings.HasPrefix(status, "sleep") {
 		// timerqueue timer goroutine
